@@ -88,8 +88,8 @@ def _read(func, args, names, smap):
             if lib["inp"] is None:
                 continue
             tin = "/".join(t.split("/")[:-1] + [lib["inp"]])
-            coef = col[ti] - (float(Fr(0)) if True else 0.0)
-            pairs.append([s, tin, frac(coef)])
+            if col[ti] != 0.0:          # pairs not listed have coefficient 0 (the model may not have an edge there)
+                pairs.append([s, tin, frac(col[ti])])
     return dict(keys=sorted(keys), pairs=pairs)
 
 
@@ -233,8 +233,8 @@ def gen_case(rng, maxlen):
     def add_edges(ci, n):
         case_tmp = dict(circs=circs, nodes=nodes, ops=ops)
         ns = tree_nodes(case_tmp, ci)
-        srcs = ["/".join(p) + "/op/x" for p, j in ns if node_has(case_tmp, j, "op")] + \
-               ["/".join(p) + "/oq/z" for p, j in ns if node_has(case_tmp, j, "oq")]
+        # sources: op/x only (two different source variables of one node into one target variable is defect D3 of C01)
+        srcs = ["/".join(p) + "/op/x" for p, j in ns if node_has(case_tmp, j, "op")]
         tgts = ["/".join(p) + "/op/u" for p, j in ns if node_has(case_tmp, j, "op")] + \
                ["/".join(p) + "/oq/v" for p, j in ns if node_has(case_tmp, j, "oq")]
         for _ in range(n):
@@ -356,6 +356,23 @@ Definition wf (c : ccase) := let '(d, r, h, inputs, ops, pys) := c in
 """
 
 
+class Intern:
+    """one `Definition` per distinct string / rational literal of a generated file: parsing literals dominates coqc time"""
+    def __init__(self):
+        self.s, self.q = {}, {}
+    def defs(self):
+        return "".join(f"Definition {n} := {core_cstr(x)}.\n" for x, n in self.s.items()) + \
+               "".join(f"Definition {n} : Qc := {core_cq(x)}.\n" for x, n in self.q.items())
+
+core_cstr, core_cq = cstr, cq
+TAB = Intern()
+
+def cstr(x):
+    return TAB.s.setdefault(x, f"s{len(TAB.s)}_")
+
+def cq(x):
+    return TAB.q.setdefault(Fr(x), f"q{len(TAB.q)}_")
+
 def cval(v):
     if isinstance(v, list):
         return "(Arr " + clist([cq(x) for x in v]) + ")"
@@ -413,8 +430,9 @@ def model_compare(ctx, cases, outs, tag):
     badI, badS, gfalse, illformed = [], [], [], []
     shard = 25
     for s in range(0, len(cases), shard):
+        TAB.__init__()
         terms = [coq_case(c, o) for c, o in zip(cases[s:s + shard], outs[s:s + shard])]
-        body = ("Definition cases : list ccase := " + clist(terms) + ".\n"
+        body = (TAB.defs() + "Definition cases : list ccase := " + clist(terms) + ".\n"
                 "Eval vm_compute in (mismatches okI cases).\nEval vm_compute in (mismatches okS cases).\n"
                 "Eval vm_compute in (mismatches guard cases).\nEval vm_compute in (mismatches wf cases).\n")
         ls = parse_nat_lists(coq_eval(ctx, f"c07_{tag}_{s}", HEADER, body))
@@ -424,7 +442,9 @@ def model_compare(ctx, cases, outs, tag):
 
 
 def model_outputs(ctx, case, outs, tag):
-    body = (f"Definition c : ccase := {coq_case(case, outs)}.\n"
+    TAB.__init__()
+    term = coq_case(case, outs)
+    body = (TAB.defs() + f"Definition c : ccase := {term}.\n"
             "Eval vm_compute in (let '(d, r, h, inputs, ops, pys) := c in match abs d h r with Some t => Some (snd (runS d t ops)) | None => None end).\n"
             "Eval vm_compute in (let '(d, r, h, inputs, ops, pys) := c in snd (runI d r h ops)).\n")
     try:
